@@ -232,8 +232,11 @@ func (s *sSynSpec) bodyCount() int {
 
 // H12_syn: thesaurus lookups on built and re-opened segments, with exclusions and object reuse.
 func H12_syn() {
-	nSyn := 1 + vChoice("nSyn", vParam("maxSyn", 2))
-	docs, sp := vGenSynBatch("", nSyn, true)
+	nSyn := vParam("fixSyn", 0) // (fixSyn: exactly that many synonym documents)
+	if nSyn == 0 {
+		nSyn = 1 + vChoice("nSyn", vParam("maxSyn", 2))
+	}
+	docs, sp := vGenSynBatch("", nSyn, vParam("emptyTerm", 1) == 1)
 	var z ZapPlugin
 	segI, _, err := z.newWithChunkMode(docs, DefaultChunkMode)
 	vAssert(err == nil, "build")
